@@ -730,8 +730,21 @@ def run_store_growth_sites(repo, task):
                         ob(f'{q}:store-growth#{k}', not alias, f'L{c_.lineno}: {recv.id}.{c_.func.attr}(...) where {recv.id} is bound to {[ast.unparse(v)[:50] for v in binds[recv.id]]}'
                            + (f' -- {alias} is the live store of another object' if alias else ''), q)
                         k += 1
-    rep = dict(name=task['name'], status='ok' if n >= 4 else 'checker-fault', items=items, failures=failures, evaluations=0, distinct=0, rule='',
+    # the raw TypeBlocks constructor keeps the lists it is given: a copy made with it must not be handed the receiver's own (grow-able) lists
+    tb_tree = ast.parse(open(os.path.join(core, 'type_blocks.py')).read())
+    for cls in [c for c in tb_tree.body if isinstance(c, ast.ClassDef) and c.name == 'TypeBlocks']:
+        for fn in [f for f in cls.body if isinstance(f, ast.FunctionDef)]:
+            k = 0
+            for c_ in sorted((x for x in ast.walk(fn) if isinstance(x, ast.Call) and ast.unparse(x.func) in ('self.__class__', 'cls', 'TypeBlocks')), key=lambda x: x.lineno):
+                for kw in c_.keywords:
+                    if kw.arg in ('blocks', 'dtypes', 'index'):
+                        n += 1
+                        alias = isinstance(kw.value, ast.Attribute) and isinstance(kw.value.value, ast.Name) and kw.value.value.id == 'self' and kw.value.attr in ('_blocks', '_dtypes', '_index')
+                        ob(f'type_blocks.py:TypeBlocks.{fn.name}:raw-ctor#{k}:{kw.arg}', not alias, f'L{c_.lineno}: {kw.arg}={ast.unparse(kw.value)[:50]}' + (' -- the new TypeBlocks shares the list the receiver grows' if alias else ''),
+                           f'type_blocks.py:TypeBlocks.{fn.name}')
+                k += 1
+    rep = dict(name=task['name'], status='ok' if n >= 10 else 'checker-fault', items=items, failures=failures, evaluations=0, distinct=0, rule='',
                samples=[dict(obligation=i['name'], verdict=i['verdict']) for i in items[:3]], trusted=[], assumptions=[], wall_s=round(time.time() - t0, 2))
-    if n < 4:
-        rep['detail'] = f'only {n} block-store growth calls found: the generator no longer matches the source layout'
+    if n < 10:
+        rep['detail'] = f'only {n} block-store growth / raw-constructor sites found: the generator no longer matches the source layout'
     return rep
